@@ -34,6 +34,11 @@ class Prog:
     # ---- expressions -----------------------------------------------------------
     def cond(self, call_safe):
         r = self.rng
+        if r.randrange(8) == 0:
+            # conditions that are not plain ints: non-zero values that a narrowing to int would lose
+            return r.choice(["((uint64_t)(c->v[%d] & 1) << 40)" % r.randrange(2),
+                             "(0.25 * (c->v[%d] & 3))" % r.randrange(2),
+                             "((unsigned long long)c->v[0] * 0x100000000ull)"])
         k = r.randrange(6 if not call_safe else 3)
         if k == 0:
             return "(c->v[%d] & %d)" % (r.randrange(2), 1 << r.randrange(3))
